@@ -79,6 +79,9 @@ type kindMap struct {
 	Shift   int
 	Rev     bool
 	NamedID bool // the ID field is of a defined string type (Check accepts it)
+	// Decoy: every field is preceded by another one that shares its json name, has another Go type
+	// and an api tag that is neither attr nor rel ("related"): no field of the resource at all
+	Decoy bool
 }
 
 var nonBool = []int{
@@ -166,7 +169,7 @@ func structType(name string, fields defMap, km kindMap) reflect.Type {
 		}
 	}
 	var key strings.Builder
-	fmt.Fprintf(&key, "%s|%d|%v|%v", name, km.Shift, km.Rev, km.NamedID)
+	fmt.Fprintf(&key, "%s|%d|%v|%v|%v", name, km.Shift, km.Rev, km.NamedID, km.Decoy)
 	for _, f := range names {
 		fmt.Fprintf(&key, "|%s:%+v", f, fields[f])
 	}
@@ -200,6 +203,16 @@ func structType(name string, fields defMap, km kindMap) reflect.Type {
 			if d.TN != "" {
 				api += "," + d.TN
 			}
+		}
+		if km.Decoy {
+			dt := reflect.TypeOf(0)
+			if typ.Kind() == reflect.Int {
+				dt = reflect.TypeOf("")
+			}
+			sf = append(sf, reflect.StructField{
+				Name: fmt.Sprintf("D%d", i), Type: dt,
+				Tag: reflect.StructTag(fmt.Sprintf(`json:"%s" api:"%s"`, f, []string{"related", "relation,tt", "attribute"}[i%3])),
+			})
 		}
 		sf = append(sf, reflect.StructField{
 			Name: fmt.Sprintf("F%d", i), Type: typ,
